@@ -83,14 +83,14 @@ def law_sample(case, n, seed):
         out = []
         for j, tt in enumerate(case["T"]):
             d = inv.get_statuses(time=tt)
-            out.append((j, "".join(d[x] for x in labels)))
+            out.append((j, "".join(str(d[x]) for x in labels)))
         return out
     return lawtest.sample_counts(call, n, seed, stat)
 
 
 def law_expected(case):
     ad = contagion.ComplexAdapter(dict(case, prefix=[]))
-    return {j: {"".join(s): p for s, p in lawtest.generic_dist_at(ad.ref, ad.init_state, tt).items()}
+    return {j: {"".join(str(x) for x in s): p for s, p in lawtest.generic_dist_at(ad.ref, ad.init_state, tt).items()}
             for j, tt in enumerate(case["T"])}
 
 
